@@ -63,11 +63,16 @@ fn binary(v: &U320) -> Digits {
 
 fn generators(tier: Tier) -> Vec<(String, JubJubExtended)> {
     let rho = dusk_jubjub::JubJubScalar::from(Rho::new(seed(), 1414).next_u64());
-    let mut v = vec![("G".to_string(), GENERATOR_EXTENDED), ("Gnums".to_string(), GENERATOR_NUMS_EXTENDED)];
-    if tier == Tier::Thorough {
-        v.push(("rhoG".to_string(), GENERATOR_EXTENDED * rho));
-    }
-    v
+    let _ = tier;
+    let ga = Pt::from_jubjub(GENERATOR_EXTENDED);
+    // the same generators in OTHER extended representations: Z != 1 (anything that comes
+    // out of group arithmetic) and the rescaling by -1
+    vec![
+        ("G".to_string(), GENERATOR_EXTENDED),
+        ("Gnums".to_string(), GENERATOR_NUMS_EXTENDED),
+        ("rhoG".to_string(), GENERATOR_EXTENDED * rho),
+        ("G(Z=-1)".to_string(), JubJubExtended::from_raw_unchecked(-ga.x, -ga.y, neg1(), -ga.x, ga.y)),
+    ]
 }
 
 fn scalars() -> Vec<(String, Fe)> {
@@ -209,6 +214,10 @@ pub fn cases(tier: Tier) -> Vec<GCase> {
             c.named = Some(std::sync::Arc::new(|h: &crate::e2::Honest| cancelling_point_shift(h)));
             c.rewire = canonical && (tier == Tier::Thorough || (gn == "G" && (sn == "1" || sn == "rho")));
             out.push(c);
+            // quick: the non-normalised representations go through the public entry point only
+            if tier == Tier::Quick && (gn == "rhoG" || gn == "G(Z=-1)") {
+                continue;
+            }
 
             // prover-chosen digit vectors through the seam
             let honest = naf(&si.low(255));
